@@ -24,7 +24,13 @@ CHECKS.update({
  "C14": ("model_checking", "Trees in which one name recurs under different parents / depths / itself are enumerated by TLC; RenderProps!NameTags judges every real struct name (own PascalCase name, ancestor qualification only, unqualified when unique, first struct = root) and the as-coded model at design level.", "TLA+ renderer spec + TLC, RenderTrace judging", "§5 C14"),
  "C16": ("model_checking", "ElementApi.tla: every sequence of public operations within the bound is a behaviour; TLC checks Unique and EffectOK after every operation; each sequence is executed on a real Element and ApiTrace accepts a step only if names stay unique and the operation had exactly the demanded effect; final trees are rendered and judged by RenderTrace; random sequences up to 60 operations beyond the bound.", "TLA+ API state machine + TLC, spec->impl replay, ApiTrace / RenderTrace validation", "§5 C16"),
 })
-NOTES = {"C15": "Trusted: TLC, the harness instantiation merge_necessity::<i64>; exhaustive only up to alphabet/length bound (quick 3/3, thorough 4/4), sampled beyond."}
+CHECKS.update({
+ "C07": ("exploration", "Mass execution with a monitor: seeds are the byte serialisations of the TLC-enumerated fault histories (MC_Parser instance errors, whose invariant Total shows the design has a successor for every event in every reading state), the repository's test documents and random documents; byte-level mutations, truncation at every offset, invalid UTF-8, raw bytes, nesting to depth 200; random reader configurations and chunked / small-capacity BufRead; every Ok result rendered with random options; catch_unwind per case, wall-clock limit and exit status per batch.", "TLC-derived seed corpus + mutation-based execution under a panic/abort/hang monitor", "§5 C07"),
+ "C12": ("model_checking", "Cli.tla steps one run of the binary in program order; MC_Cli enumerates all input kinds x output kinds x option values (exhaustive) and checks the sentences of C12 in every state; each behaviour is executed with the real binary under strace, observables compared with the prediction (expected bytes = header + library rendering for the options the specification derives) and the system-call sequence validated by CliTrace (output is never opened before the input parsed).", "TLA+ CLI state machine + TLC (exhaustive), replay against the real binary, strace trace validation", "§5 C12"),
+})
+NOTES = {"C07": "Trusted: catch_unwind + process exit status + wall-clock limit as the monitor; nothing is proved about memory safety or termination of the real code.",
+         "C12": "Trusted: strace, the file-system setup of each fault; permission faults are not exercised (root); clap usage errors out of scope.",
+         "C15": "Trusted: TLC, the harness instantiation merge_necessity::<i64>; exhaustive only up to alphabet/length bound (quick 3/3, thorough 4/4), sampled beyond."}
 
 def main():
     checks = []
